@@ -102,6 +102,7 @@ pub mod asm {
         verus! {
         broadcast use {crate::num_bigint::axiom_into_refl_obeys, crate::num_bigint::axiom_into_refl, crate::util::axiom_bigint_into_refl_obeys, crate::util::axiom_bigint_into_refl, crate::std_gaps::axiom_vec_len_fits};
         //@@INCLUDE u_resolver/spec.rs
+        //@@INCLUDE u_resolver/ifs_spec.rs
         //@@ITEMS resolver
         }
     }
